@@ -123,9 +123,15 @@ def tokens_for(d, rich=False):
             t += ["-" + l0 + ol + "=x", "-" + ol + l0 + "="]   # ... carrying an inline value
         if rich and len(letters) >= 2:
             t += ["-" + l0 + letters[1] + l0, "-" + l0 + "=" + "x", "-" + l0 + letters[1] + "=x", "-" + l0 + "-" + letters[1]]
-    t += ["x", "y", "", "--", "-", "--unknown", "-z", "---x", "-=", "--=x", "-5"]
+    t += ["x", "y", "", "--", "-", "--unknown", "-z", "---x", "-=", "--=x", "-5", "{}", "--{}"]
+    if letters:
+        t += ["-" + letters[0] + "{}"]
+    if optletters:
+        t += ["-" + optletters[0] + "{}"]
     if rich:
         t += ["=", "=x", "a=b", "----", "-=-", "--=", "--no-", "--no-zzz", " ", "\n"]
+        # bytes that mean something to formatting layers through which an error text may pass
+        t += ["-{}", "--x={}", "{0}", "%s", "%n", "{", "}", "--{", "\\", "$(x)"]
         # near misses of declared names and letters: other case, proper prefix, extended, non-ASCII neighbour
         for n, s_, *_ in (d.opts + d.multis + d.toggles)[:4]:
             t += ["--" + n.upper(), "--" + n + "-", "--" + n + "\xe4"]
@@ -368,11 +374,47 @@ def moved_bundle_stream(tier, rng, n):
         yield "steps %s . %s" % (d_old.wire(), " ".join(steps)), "reuse-moved-bundle"
 
 
+def dup_short_stream(tier, rng, n):
+    """declarations in which two entries share a short name (parse must refuse every time, also the k-th time on the same
+    object, after a move, and after further declarations that keep or remove nothing)"""
+    kinds = ["o", "m", "t"]
+    for _ in range(n):
+        a, b = rng.choice(kinds), rng.choice(kinds)
+        letter = rng.choice("xvq")
+        names = rng.sample(["alpha", "beta", "gamma", "x-y", "n"], 3)
+        opts, multis, togs = [], [], []
+        def put(kind, name, sh):
+            if kind == "o":
+                opts.append((name, sh, None, rng.choice([None, "d"]), True))
+            elif kind == "m":
+                multis.append((name, sh, None, None, True))
+            else:
+                togs.append((name, sh, None, 0, rng.random() < 0.5))
+        put(a, names[0], letter)
+        put(b, names[1], letter)
+        put(rng.choice(kinds), names[2], rng.choice([None, "k"]))
+        d = Decl(opts, multis, togs, rng.choice([None, 0, 2]), False)
+        d0 = d
+        steps = []
+        for _ in range(rng.randint(2, 4)):
+            r = rng.random()
+            if r < 0.7:
+                steps.append("a:" + wl([rng.choice(["-" + letter, "--" + names[0], "--" + names[1] + "=v", "p", "-k", "--"]) for _ in range(rng.randint(0, 3))]))
+            elif r < 0.85:
+                steps.append("mc")
+            else:
+                d = grow_decl(d, rng)
+                steps.append("d:" + d.wire())
+        steps.append("a:" + wl([rng.choice(["-" + letter, "p"])]))
+        yield "steps %s . %s" % (d0.wire(), " ".join(steps)), "dup-short-steps"
+
+
 def core_stream(tier, rng, n_random):
     """the stream every parser-cluster check runs: exhaustive short vectors over declaration-relative tokens for
     every shape + random longer vectors + random declarations"""
     yield from reuse_stream(tier, rng, 1500 if tier == "quick" else 15000)
     yield from moved_bundle_stream(tier, rng, 400 if tier == "quick" else 4000)
+    yield from dup_short_stream(tier, rng, 300 if tier == "quick" else 3000)
     sh = shapes()
     for name, d in sh:
         toks = tokens_for(d, rich=False)
